@@ -935,12 +935,13 @@ def inline_fresh_helpers(modules, baseline=None, rounds=4):
                 if done != calls:
                     raise Unsupported('%d of %d call sites are outside the class/module or use another receiver' % (done, calls))
             except Unsupported as ex:
-                # restore
+                # restore (the restored bodies are copies: the helper objects collected for this round no longer point into the tree, so the round ends here)
                 for fn in fns:
                     b = backup[id(fn)]
                     fn.body = b.body
                 log.append((h.qual, [], 'kept: %s' % ex))
-                continue
+                progressed = True
+                break
             # remove the definition (a helper with a public name stays: it is new API as well, and is analysed like any other function)
             if h.parent is not None:
                 _remove_nested(h.parent, h.node)
@@ -2186,6 +2187,32 @@ def canonical_index_loops(modules):
                         n += 1
                         k += 2
                         done = True
+            # for i in range(len(L)): BODY (reads L[i] only)
+            if not done and isinstance(st, ast.For) and isinstance(st.target, ast.Name) and not st.orelse and isinstance(st.iter, ast.Call) and isinstance(st.iter.func, ast.Name) \
+                    and st.iter.func.id == 'range' and len(st.iter.args) == 1 and isinstance(st.iter.args[0], ast.Call) and isinstance(st.iter.args[0].func, ast.Name) \
+                    and st.iter.args[0].func.id == 'len' and len(st.iter.args[0].args) == 1 and isinstance(st.iter.args[0].args[0], ast.Name):
+                i, L = st.target.id, st.iter.args[0].args[0].id
+                nodes = [x for b in st.body for x in ast.walk(b)]
+                reads_i = [x for x in nodes if isinstance(x, ast.Name) and x.id == i]
+                subs = [x for x in nodes if isinstance(x, ast.Subscript) and isinstance(x.value, ast.Name) and x.value.id == L and isinstance(x.slice, ast.Name) and x.slice.id == i
+                        and isinstance(x.ctx, ast.Load)]
+                ok = subs and len(reads_i) == len(subs) \
+                    and not any(isinstance(x, ast.Name) and x.id in (i, L) and isinstance(x.ctx, (ast.Store, ast.Del)) for x in nodes) \
+                    and not any(isinstance(x, (ast.FunctionDef, ast.Lambda)) for x in nodes) \
+                    and not any(isinstance(x, ast.Call) and isinstance(x.func, ast.Attribute) and x.func.attr in MUT and isinstance(x.func.value, ast.Name) and x.func.value.id == L for x in nodes) \
+                    and not any(isinstance(x, ast.Name) and x.id == i for s2 in stmts[k + 1:] for x in ast.walk(s2))
+                if ok:
+                    var = '%s_item' % L
+
+                    class S2(ast.NodeTransformer):
+                        def visit_Subscript(self, x):
+                            if any(x is y for y in subs):
+                                return ast.copy_location(ast.Name(id=var, ctx=ast.Load()), x)
+                            return self.generic_visit(x)
+                    st.body = [S2().visit(b) for b in st.body]
+                    st.target = ast.Name(id=var, ctx=ast.Store())
+                    st.iter = ast.Name(id=L, ctx=ast.Load())
+                    n += 1
             if not done:
                 out.append(st)
                 k += 1
